@@ -371,6 +371,9 @@ pub struct E2eCase {
 	/// must still quit.
 	#[serde(default)]
 	pub map: u8,
+	/// the same signal is sent a second time 120 ms after the first
+	#[serde(default)]
+	pub twice: bool,
 }
 
 fn run_e2e(c: &E2eCase) -> Outcome {
@@ -434,7 +437,14 @@ fn run_e2e(c: &E2eCase) -> Outcome {
 		libc::kill(child.id() as i32, if c.sigterm { libc::SIGTERM } else { libc::SIGINT });
 	}
 	let mut exited = None;
+	let mut second_sent = !c.twice;
 	while t.elapsed() < Duration::from_secs(10) {
+		if !second_sent && t.elapsed() >= Duration::from_millis(120) {
+			second_sent = true;
+			unsafe {
+				libc::kill(child.id() as i32, if c.sigterm { libc::SIGTERM } else { libc::SIGINT });
+			}
+		}
 		if let Ok(Some(st)) = child.try_wait() {
 			exited = Some(st);
 			break;
@@ -482,8 +492,8 @@ pub fn check(e: &Engine) {
 	e.require_label("quit", "armed-timer", 0.15);
 	e.explore(
 		"cli-signals",
-		LegOpts::realtime(e.tier.pick(20, 300), 5, "the real CLI supervising a helper, interrupted with SIGINT or SIGTERM: exits within the stop timeout (300 ms) + slack and leaves no process behind; command exits on / ignores the stop signal; wrap group / session / none; --map-signal absent, for an unrelated signal, or for the other one of INT/TERM (mapped to HUP, to itself, or discarded) - the signal that is sent is never the mapped one, so it must still quit"),
-		&|| (any::<bool>(), any::<bool>(), 0u8..3, 0u8..5).prop_map(|(sigterm, ignore, wrap, map)| E2eCase { sigterm, ignore, wrap, map }).boxed(),
+		LegOpts::realtime(e.tier.pick(20, 300), 5, "the real CLI supervising a helper, interrupted with SIGINT or SIGTERM: exits within the stop timeout (300 ms) + slack and leaves no process behind; command exits on / ignores the stop signal; wrap group / session / none; --map-signal absent, for an unrelated signal, or for the other one of INT/TERM (mapped to HUP, to itself, or discarded) - the signal that is sent is never the mapped one, so it must still quit; in 30% of the cases the signal is sent a second time 120 ms later, which must not delay the exit or leave anything behind"),
+		&|| (any::<bool>(), any::<bool>(), 0u8..3, 0u8..5, proptest::bool::weighted(0.3)).prop_map(|(sigterm, ignore, wrap, map, twice)| E2eCase { sigterm, ignore, wrap, map, twice }).boxed(),
 		&run_e2e,
 	);
 	let _ = Path::new("");
